@@ -212,7 +212,14 @@ structure BuildCheck where
   dirBwd : Bool := true
 
 /-- Classes of failures that are recorded findings (known_findings.json); everything else is generic. -/
-def knownClasses : List String := ["flatten-overflow-saturated", "flatten-loses-nested-master"]
+def knownClasses : List String :=
+  ["flatten-overflow-saturated", "flatten-loses-nested-master", "decompose-dedups-duplicate-visit"]
+
+/-- Does the drawing contain the same contour twice (same base reached twice with the same accumulated
+    transform)?  Then convert_components_to_contours' `visited` set may drop one of the visits, depending on the
+    iteration order of a HashMap (glyph.rs:139, 431). -/
+def hasDuplicateContour (cs : List Contour) : Bool :=
+  cs.zipIdx.any fun (c, i) => !c.isEmpty && (cs.drop (i + 1)).contains c
 
 def flagWord (bits : Nat) : String :=
   let fl := Flags.ofBits bits
@@ -234,8 +241,10 @@ def inconsistentNames (names exported : List String) (envs : List (List (String 
 /-- Names reachable from `n` through components in the source at the default location. -/
 def closure (G : Env) (fuel : Nat) (n : String) : List String := reachable G fuel [n]
 
-def classify (d : Design) (fl : Flags) (st : State) (srcG : Env) (names : List String) (n : String) (loc : List Rat) : String :=
-  if fl.flatten && !fl.decomposeAll then
+def classify (d : Design) (fl : Flags) (st : State) (srcG : Env) (names : List String) (n : String) (loc : List Rat)
+    (dup : Bool) (msg : String) : String :=
+  if dup && msg.startsWith "contour count" then "decompose-dedups-duplicate-visit"
+  else if fl.flatten && !fl.decomposeAll then
     -- (A) the flattened glyph (exact model state) has a composed 2×2 entry outside [-2, 2]: fontbe saturates it
     let reach := closure st.env (st.names.length + 1) n
     let overflow := reach.any fun m =>
@@ -297,7 +306,7 @@ def checkBuild (d : Design) (names exported incons : List String) (locs : List (
         r := { r with maxDepth := Nat.max r.maxDepth dep }
         match matchDrawings fcs src with
         | .error msg =>
-          r := { r with fails := r.fails ++ [⟨classify d fl st env0 names n loc,
+          r := { r with fails := r.fails ++ [⟨classify d fl st env0 names n loc (hasDuplicateContour src) msg,
                         s!"{flagWord bits} glyph {n} at master {mname} {loc}: {msg}"⟩] }
         | .ok (fwd, bwd) => r := { r with dirFwd := r.dirFwd && fwd, dirBwd := r.dirBwd && bwd }
       -- advance: exact at the default, within 1 at every master that draws the glyph
@@ -340,6 +349,8 @@ def handle : Handler := fun s =>
         | some (.atom "err" :: msg) => (bits, none, (msg.head?.bind Sexp.asString?).getD "")
         | _ => (bits, none, "no result")
       let rejected := results.find? fun (_, c, _) => c.isNone
+      let srcG0 := Env.ofList (envs.headD [])
+      let dupGlyphs := exported.filter fun n => hasDuplicateContour (resolve srcG0 (names.length + 1) n)
       let checks := results.filterMap fun (_, c, _) => c
       let allFails := checks.flatMap (·.fails)
       -- a failure of an unrecorded kind is reported before the recorded findings
@@ -347,7 +358,8 @@ def handle : Handler := fun s =>
         | some x => some x
         | none => allFails.head?
       let corrBad := checks.find? (·.corr == some false)
-      let corr : Option Bool := if checks.isEmpty then none else some corrBad.isNone
+      -- with duplicate visits the stored form depends on HashMap iteration order: not comparable with the model
+      let corr : Option Bool := if checks.isEmpty || !dupGlyphs.isEmpty then none else some corrBad.isNone
       let dGlyphs := dm.glyphs
       let srcG := Env.ofList (envs.headD [])
       let maxDepthSrc := (names.map fun n => depth srcG names.length n).foldl Nat.max 0
@@ -363,13 +375,15 @@ def handle : Handler := fun s =>
         (if d.masters.any (·.sparse) then ["sparse"] else []) ++
         (if hasT then ["transformed"] else []) ++ (if hasFlip then ["flipped"] else []) ++
         (if hasMixed then ["mixed"] else []) ++ (if neUsed then ["nonexport-used"] else []) ++
-        (if hasOverflow then ["overflow2x2"] else []) ++ (if incons.isEmpty then [] else ["inconsistent2x2"]) ++
+        (if hasOverflow then ["overflow2x2"] else []) ++ (if dupGlyphs.isEmpty then [] else ["duplicate-visit"]) ++ (if incons.isEmpty then [] else ["inconsistent2x2"]) ++
         (if compCounts.any (· != compCounts.headD 0) then ["storage-varies"] else ["storage-same"]) ++
         (if dirVaries then ["direction-varies"] else [])
       let nt := maxDepthSrc ≥ 1 && (hasT || hasMixed || neUsed || maxDepthSrc ≥ 2)
       match rejected, bad with
       | some (bits, _, msg), _ =>
-        { corr := corr, oracle := some false, nontrivial := nt, cls := "valid-source-rejected", tags,
+        let cls := if !dupGlyphs.isEmpty && (msg.splitOn "interpolation-incompatible").length > 1
+          then "decompose-dedups-duplicate-visit" else "valid-source-rejected"
+        { corr := corr, oracle := some false, nontrivial := nt, cls, tags,
           detail := s!"{flagWord bits}: {msg}" }
       | none, some b =>
         { corr := corr, oracle := some false, nontrivial := nt, cls := b.cls, tags,
@@ -379,5 +393,106 @@ def handle : Handler := fun s =>
           cls := if corr == some false then "storage-differs-from-model" else "",
           detail := (corrBad.map (·.corrDetail)).getD "" }
     | _ => badInput "c12: no builds"
+
+/-! ### c12 (pure): the real GlyphOrderWork on synthetic IR glyphs vs the model's `process` -/
+
+def parsePGlyph (s : Sexp) : Option (String × Inst) :=
+  match s with
+  | .list [n, adv, cs, ks] => do
+    let contours ← cs.mapM? fun c => c.mapM? fun p =>
+      match p with
+      | .list [x, y] => do some (Pt.mk (← x.asRat?) (← y.asRat?) true)
+      | _ => none
+    let comps ← ks.mapM? fun k =>
+      match k with
+      | .list [b, t] => do some (Comp.mk (← b.asString?) (Affine.ofList (← t.mapM? Sexp.asRat?)))
+      | _ => none
+    some (← n.asString?, { advance := ← adv.asRat?, contours, comps })
+  | _ => none
+
+def parseLocs (s : Sexp) : Option (List (List (String × Inst))) := s.mapM? fun l => l.mapM? parsePGlyph
+
+/-- same contour up to the start point (direction exact) -/
+def sameUpToStart (a b : Contour) : Bool := a.length == b.length && (a.isEmpty || (rotations b).contains a)
+
+def instAgrees (n : String) (m i : Inst) : Option String :=
+  if m.advance != i.advance then some s!"{n}: advance model {m.advance} impl {i.advance}"
+  else if m.comps != i.comps then some s!"{n}: components model {repr m.comps} impl {repr i.comps}"
+  else if m.contours.length != i.contours.length then some s!"{n}: {m.contours.length} contours in the model, {i.contours.length} in the implementation"
+  else match (m.contours.zip i.contours).zipIdx.find? fun ((a, b), _) => !sameUpToStart a b with
+    | some ((a, b), k) =>
+      some s!"{n}: contour {k} model {a.map fun p => (p.x, p.y)} impl {b.map fun p => (p.x, p.y)}{if sameUpToStart a b.reverse then " (reversed)" else ""}"
+    | none => none
+
+def handlePure : Handler := fun s =>
+  match (s.field1? "flags").bind Sexp.asNat?, (s.field1? "order").bind (·.mapM? Sexp.asString?),
+        (s.field1? "skip").bind (·.mapM? Sexp.asString?), (s.field1? "locs").bind parseLocs, s.field? "impl" with
+  | some bits, some names, some skip, some envs, some impl =>
+    let fl := Flags.ofBits bits
+    let exported := names.filter fun n => !skip.contains n
+    let incons := inconsistentNames names exported envs
+    let srcG0 := Env.ofList (envs.headD [])
+    let fuel := names.length + 1
+    let maxDepth := (names.map fun n => depth srcG0 names.length n).foldl Nat.max 0
+    let all0 := envs.headD []
+    let hasT := all0.any fun (_, i) => i.comps.any (·.t.nonIdentity2x2)
+    let hasFlip := all0.any fun (_, i) => i.comps.any (·.t.det < 0)
+    let hasMixed := all0.any fun (_, i) => i.mixed
+    let hasOverflow := all0.any fun (_, i) => i.comps.any (·.t.overflows)
+    let neUsed := all0.any fun (_, i) => i.comps.any fun c => skip.contains c.base
+    let dupGlyphs := exported.filter fun n => hasDuplicateContour (resolve srcG0 fuel n)
+    let tags := [flagWord bits, s!"locs{envs.length}", s!"depth{maxDepth}"] ++
+      (if hasT then ["transformed"] else []) ++ (if hasFlip then ["flipped"] else []) ++
+      (if hasMixed then ["mixed"] else []) ++ (if neUsed then ["nonexport-used"] else []) ++
+      (if hasOverflow then ["overflow2x2"] else []) ++ (if dupGlyphs.isEmpty then [] else ["duplicate-visit"])
+    let nt := maxDepth ≥ 1 && (hasT || hasMixed || neUsed || maxDepth ≥ 2)
+    let implS := Sexp.list (impl.map id)
+    match implS.field? "result" with
+    | some [Sexp.atom "ok"] =>
+      match (implS.field1? "order").bind (·.mapM? Sexp.asString?), (implS.field1? "locs").bind parseLocs with
+      | some iorder, some ienvs =>
+        if ienvs.length != envs.length then badInput "c12: location count" else
+        -- model
+        let states := envs.map fun e => process fl (fun n => exported.contains n) (fun n => incons.contains n) names (Env.ofList e)
+        let side := (states.zip envs).findSome? fun (st, e) => sideConditions fl exported incons names (Env.ofList e) st
+        let corrMsg : Option String :=
+          match side with
+          | some m => some s!"model side condition: {m}"
+          | none =>
+            ((states.zip ienvs).zipIdx.findSome? fun ((st, ie), l) =>
+              if st.order != iorder then some s!"glyph order model {st.order} impl {iorder}" else
+              let iG := Env.ofList ie
+              st.order.findSome? fun n =>
+                match st.env n, iG n with
+                | some m, some i => (instAgrees n m i).map fun msg => s!"location {l}: {msg}"
+                | _, _ => some s!"location {l}: {n} missing")
+        -- oracle on the implementation's output: every exported glyph draws the same, exactly, at every location
+        let bad : Option (String × String) := ((envs.zip ienvs).zipIdx.findSome? fun ((e, ie), l) =>
+          let G := Env.ofList e
+          let iG := Env.ofList ie
+          exported.findSome? fun n =>
+            let src := resolve G fuel n
+            let got := resolve iG (iorder.length + 1) n
+            let gotB : List (List BPt) := got.map fun c => c.map fun p => ⟨p.x, p.y, p.on, 0⟩
+            if advanceOf iG n != advanceOf G n then some ("advance-differs", s!"glyph {n} location {l}: {repr (advanceOf iG n)} vs {repr (advanceOf G n)}")
+            else match matchDrawings gotB src with
+              | .error msg =>
+                let cls := if hasDuplicateContour src && msg.startsWith "contour count" then "decompose-dedups-duplicate-visit"
+                  else "resolved-outline-differs"
+                some (cls, s!"{flagWord bits} glyph {n} location {l}: {msg}")
+              | .ok _ => none)
+        let corr : Option Bool := if !dupGlyphs.isEmpty then none else some corrMsg.isNone
+        match bad with
+        | some (cls, msg) => { corr, oracle := some false, nontrivial := nt, cls, tags, detail := msg }
+        | none =>
+          { corr, oracle := some true, nontrivial := nt, tags,
+            cls := if corr == some false then "ir-differs-from-model" else "", detail := corrMsg.getD "" }
+      | _, _ => badInput "c12: cannot parse impl"
+    | some (Sexp.atom w :: msg) =>
+      { corr := none, oracle := some false, nontrivial := nt, tags,
+        cls := if w == "panic" then "panic" else "valid-source-rejected",
+        detail := s!"{flagWord bits}: {(msg.head?.bind Sexp.asString?).getD ""}" }
+    | _ => badInput "c12: no result"
+  | _, _, _, _, _ => badInput "c12: cannot parse case"
 
 end Fontc.Driver.C12
